@@ -37,7 +37,7 @@ def strategy(tier, phase):
     sel = st.tuples(st.integers(0, 2), st.integers(-2, 3)).map(list)
     nodesel = st.one_of(st.just(-1), sel, sel)
     op = st.one_of(
-        st.tuples(st.just("cursor"), st.integers(0, 2)).map(list),
+        st.tuples(st.just("cursor"), st.integers(0, 3)).map(list),
         st.tuples(st.just("step"), st.integers(0, 2)).map(list),
         st.tuples(st.just("step"), st.integers(0, 2)).map(list),
         st.tuples(st.just("step"), st.integers(0, 2)).map(list),
@@ -55,7 +55,7 @@ def strategy(tier, phase):
     )
     n = 30 if tier == "quick" else 80
     return st.fixed_dictionaries(
-        {"init": st.integers(0, 8), "sub_at": st.integers(0, 8),
+        {"init": st.integers(0, 8), "sub_at": st.integers(0, 8), "journal": st.sampled_from([False, False, False, True]),
          "ops": st.sampled_from([6, 12, 20, n]).flatmap(lambda k: st.lists(op, min_size=k // 2, max_size=k))}
     )
 
@@ -85,6 +85,12 @@ class Cursor:
 
 
 class World:
+    def spell(self, items):
+        """The node arguments under another spelling of "iterable": list, tuple, generator, one-shot iterator."""
+        self.spell_n += 1
+        k = (self.spell_n + len(items)) % 4
+        return list(items) if k == 0 else tuple(items) if k == 1 else (x for x in list(items)) if k == 2 else iter(list(items))
+
     def __init__(self, case):
         import onnx_ir as ir
 
@@ -115,6 +121,9 @@ class World:
             self.H = None
         self.cursors = []
         self.fails = []
+        self.double_reversed = False
+        self.spell_n = 0
+        self.node_spelling = False
         self.edits = 0
         self.interesting = False
 
@@ -397,6 +406,14 @@ def execute(case):
     old = signal.signal(signal.SIGALRM, _alarm)
     signal.alarm(30)
     try:
+        if case.get("journal"):
+            # the same history while a Journal is recording (its wrappers sit between the caller and every editing method)
+            from onnx_ir.journaling import Journal
+
+            with Journal():
+                out = _execute(case)
+            out.setdefault("classes", []).append("inside_active_journal")
+            return out
         return _execute(case)
     except _Stuck:
         return dict(failures=[("no-termination", "a graph iteration / accessor call did not return within 30 s on a graph of a few dozen nodes")],
@@ -417,8 +434,14 @@ def _execute(case):
             name = op[0]
             if name == "cursor":
                 if len(w.cursors) < 3:
-                    kind = op[1] % 3
-                    it = iter(w.G0) if kind == 0 else (reversed(w.G0) if kind == 1 else iter(traversal.RecursiveGraphIterator(w.G0)))
+                    kind = op[1] % 4
+                    if kind == 3:
+                        # reversed() of a backward recursive iterator walks forwards again: it owes what a forward one owes
+                        it = iter(reversed(traversal.RecursiveGraphIterator(w.G0, reverse=True)))
+                        kind = 2
+                        w.double_reversed = True
+                    else:
+                        it = iter(w.G0) if kind == 0 else (reversed(w.G0) if kind == 1 else iter(traversal.RecursiveGraphIterator(w.G0)))
                     w.cursors.append(Cursor(kind, it, len(w.cursors)))
                 continue
             if name == "step":
@@ -445,7 +468,7 @@ def _execute(case):
             elif name == "extend":
                 g, L = w.lists(op[1])
                 ns = [w.new_node() for _ in range(op[2])]
-                g.extend(ns)
+                g.extend(w.spell(ns))
                 for n in ns:
                     w.tick(n)
                     L.append(n)
@@ -477,10 +500,18 @@ def _execute(case):
                 if before:
                     pos = [i for i, x in enumerate(L) if x is anchor][0]
                     point = L[pos - 1] if pos > 0 else None
-                    g.insert_before(anchor, nodes)
+                    if w.spell_n % 3 == 1:  # Node.prepend is documented as the same call
+                        anchor.prepend(w.spell(nodes))
+                        w.node_spelling = True
+                    else:
+                        g.insert_before(anchor, w.spell(nodes))
                 else:
                     point = anchor
-                    g.insert_after(anchor, nodes)
+                    if w.spell_n % 3 == 1:  # Node.append likewise
+                        anchor.append(w.spell(nodes))
+                        w.node_spelling = True
+                    else:
+                        g.insert_after(anchor, w.spell(nodes))
                 done = w.model_insert(L, point, nodes, g is w.G0)
                 w.notify_insert(done, g is w.G0)
             elif name == "remove":
@@ -489,7 +520,7 @@ def _execute(case):
                 if n is None:
                     continue
                 w.notify_touch(n, list(L), g is w.G0)
-                g.remove(n)
+                g.remove(n if w.spell_n % 2 else w.spell([n]))
                 w.tick(n)
                 L[:] = [x for x in L if x is not n]
             elif name == "sort":
@@ -571,6 +602,10 @@ def _execute(case):
         classes.append("arrival_at_the_place_of_a_removed_current_node(no claim)")
     if any(c.must_yield_tail for c in w.cursors):
         classes.append("arrival_behind_a_removed_current_node")
+    if w.double_reversed:
+        classes.append("reversed_of_a_backward_recursive_iterator")
+    if w.node_spelling:
+        classes.append("insertion_spelled_Node.append/prepend")
     return dict(failures=fails, nontrivial=w.interesting and bool(w.cursors), classes=sorted(set(classes)))
 
 
